@@ -159,14 +159,11 @@ class TranscriptAnnotationModel():
         return cds_start + cds_frame
 
     def get_cds_end_index(self, seq:Seq, start:int) -> int:
-        """ Returns the CDS stop index of the transcript. """
-        if self.three_utr:
-            if self.transcript.strand == 1:
-                end = self.get_transcript_index(self.three_utr[0].location.start)
-            else:
-                end = self.get_transcript_index(self.three_utr[-1].location.end - 1)
-            return end - (end - start) % 3
-        # no 3'UTR record: the ORF ends with the annotated CDS (not with the transcript)
+        """ Returns the CDS stop index of the transcript. The ORF ends with
+        the annotated CDS, whether or not the GTF has UTR records and wherever
+        they start (GENCODE's UTR includes the stop codon, ENSEMBL's
+        three_prime_utr starts after it). """
+        # pylint: disable=W0613
         if self.transcript.strand == 1:
             end = self.get_transcript_index(self.cds[-1].location.end - 1) + 1
         else:
